@@ -447,6 +447,8 @@ static void run_subprocess(char **argv) {
   // Wait for the child process to finish.
   int status;
   while (wait(&status) > 0);
+  if (WIFSIGNALED(status))
+    fprintf(stderr, "%s: terminated by signal %d\n", argv[0], WTERMSIG(status));
   if (status != 0)
     exit(1);
 }
